@@ -411,6 +411,8 @@ class Inliner:
             top = s.value
         elif isinstance(s, (ast.Assign, ast.Return)) and isinstance(s.value, ast.Call):
             top = s.value
+        elif isinstance(s, ast.For) and isinstance(s.iter, ast.Call):
+            top = s.iter  # for x in sorted(helper(..), key=..): the iterable is evaluated once, before the loop
         if top is None or depth >= MAX_DEPTH:
             return None
         if not self._simple_arg(top.func):
